@@ -363,6 +363,9 @@ pub fn run(ctx: &Ctx) -> (Report, PropertyMeta) {
     report.sections.push(json!({"part": "random histories of length <= 30 for 1..4 subscribers with interleaved publishes (PUB and XPUB)", "cases": n}));
     report.merge(r);
 
+    if t == Tier::Thorough {
+        crate::fuzzing::campaign(ctx, &mut report, "sim", 180);
+    }
     let total = report.evaluations;
     health(&mut report, "duplicate-subscription", total, 100);
     health(&mut report, "overlapping-prefixes", total, 100);
@@ -384,4 +387,8 @@ pub fn replay(_ctx: &Ctx, kind: &str, case: &Value) -> Vec<Failure> {
         _ => Err(vec![Failure::new("replay/unknown-kind", kind.to_string())]),
     }
     .unwrap_or_else(|e| e)
+}
+
+pub fn gen_filter_pub(s: &mut Src<'_>) -> FilterCase {
+    gen_filter(s)
 }
